@@ -97,8 +97,9 @@ func (hpd *httpProxyDialer) DialContext(ctx context.Context, network string, add
 
 	if resp.StatusCode != http.StatusOK {
 		_ = conn.Close()
+		// resp.Status is "<code> <reason>"; the reason phrase may be missing.
 		f := strings.SplitN(resp.Status, " ", 2)
-		return nil, errors.New(f[1])
+		return nil, errors.New(f[len(f)-1])
 	}
 	return conn, nil
 }
